@@ -19,6 +19,7 @@ type verifNode struct {
 	consumeBubble  bool
 	cmdOnTarget    Command
 	cmdOnFocusIn   Command
+	consumeHover   bool // consume command returned from the MouseEnter / MouseLeave handlers
 }
 
 func verifKind(ev vaxis.Event) int {
@@ -43,6 +44,12 @@ func (n *verifNode) HandleEvent(ev vaxis.Event, ph EventPhase) (Command, error) 
 	*n.log = append(*n.log, verifLogEntry{n.id, p, verifKind(ev)})
 	if verifKind(ev) == 1 {
 		return n.cmdOnFocusIn, nil
+	}
+	if verifKind(ev) == 3 || verifKind(ev) == 4 {
+		if n.consumeHover {
+			return ConsumeAndRedraw(), nil
+		}
+		return nil, nil
 	}
 	if verifKind(ev) != 0 {
 		return nil, nil
@@ -246,6 +253,16 @@ func VerifC15Mouse() {
 			}
 		}
 	}
+	if zzverif.Param("flags") == 1 {
+		// one widget (or none) consumes the mouse event in its target / bubble phase, and one
+		// (or none) answers hover notifications with a consume-and-redraw command
+		if c := zzverif.Choose("consumer", 5); c < 4 {
+			ws[c].consumeTarget, ws[c].consumeBubble = true, true
+		}
+		if c := zzverif.Choose("hoverConsumer", 5); c < 4 {
+			ws[c].consumeHover = true
+		}
+	}
 	n := zzverif.Param("moves")
 	for i := 0; i < n; i++ {
 		col, row := g8("mx", 0, 5), g8("my", 0, 3)
@@ -285,6 +302,48 @@ func VerifC15Mouse() {
 		}
 		if target != -2 {
 			zzverif.Assert(got == target, "mouse-target-is-deepest-topmost-widget-under-pointer")
+		}
+		if target >= 0 {
+			// the event itself: target phase at the target, then bubble through its ancestors
+			// from the nearest up to the root (in a pile of overlapping siblings the lower ones count as
+			// part of the chain), stopping at the first consumer (hover
+			// notifications and what their handlers return do not count)
+			// the chain of widgets under the pointer, in paint order: the root, then the
+			// children containing the point from the lowest z-index up, each followed by its
+			// own descendants under the pointer; the last one is the target
+			chain := []int{0}
+			aPart := []int{1}
+			if inGrand {
+				aPart = append(aPart, 3)
+			}
+			switch {
+			case inA && inB && sa.ZIndex < sb.ZIndex:
+				chain = append(append(chain, aPart...), 2)
+			case inA && inB:
+				chain = append(append(chain, 2), aPart...)
+			case inA:
+				chain = append(chain, aPart...)
+			case inB:
+				chain = append(chain, 2)
+			}
+			var want []verifLogEntry
+			want = append(want, verifLogEntry{target, 1, 0})
+			stop := ws[target].consumeTarget
+			for j := len(chain) - 2; j >= 0 && !stop; j-- {
+				want = append(want, verifLogEntry{chain[j], 2, 0})
+				stop = ws[chain[j]].consumeBubble
+			}
+			var gotEv []verifLogEntry
+			for _, e := range log[from:] {
+				if e.kind == 0 {
+					gotEv = append(gotEv, e)
+				}
+			}
+			same := len(want) == len(gotEv)
+			for j := 0; same && j < len(want); j++ {
+				same = want[j] == gotEv[j]
+			}
+			zzverif.Assert(same, "mouse-event-routed-target-then-bubble-until-consumed")
 		}
 	}
 	from := len(log)
